@@ -352,6 +352,6 @@ func NewUpstream() *Upstream {
 
 func (u *Upstream) URL() string  { return u.srv.URL }
 func (u *Upstream) Host() string { return strings.TrimPrefix(u.srv.URL, "http://") }
-func (u *Upstream) Hits() int64 { return u.hits.Load() }
-func (u *Upstream) Reset()      { u.hits.Store(0) }
-func (u *Upstream) Close()      { u.srv.Close() }
+func (u *Upstream) Hits() int64  { return u.hits.Load() }
+func (u *Upstream) Reset()       { u.hits.Store(0) }
+func (u *Upstream) Close()       { u.srv.Close() }
